@@ -6,13 +6,15 @@ from util import *
 from proto import *
 
 EXPLAIN["C07"] = (
-    "Decides two structural necessary conditions of termination on every sync.rs list operation. T1 (mark/unlink pairing): "
+    "Decides structural necessary conditions of termination on every sync.rs list operation. T1 (mark/unlink pairing): "
     "from the success edge of a mark CAS (size := REMOVED on a still-linked node) every path reaches the success edge of the "
     "unlink CAS for that node, or a store restoring the node's word, before any back edge or return - otherwise the node stays "
     "marked and linked for ever and every traversal waits on it. T3 (progress tokens): every cycle of every loop passes a "
     "failed-CAS edge, a wait-on-marker edge, a change of a loop-carried variable (traversal advance / retry counter) or a "
     "store; a cycle with none would spin without any other thread being able to release it. T4: the retry loops of the three "
-    "allocation bodies are bounded by the retry counter. Not decided: termination under fairness in general, nor that a "
+    "allocation bodies are bounded by the retry counter. T5: the in-band marker is unambiguous - a linked node word carries the REMOVED size (0) only "
+    "through a mark CAS (published sizes are >= 1, the own word packs that size, the link CAS keeps a size compared != REMOVED), otherwise the "
+    "wait-on-marker cycles accepted by T3 wait for nobody. Not decided: termination under fairness in general, nor that a "
     "waited-for marker is eventually released (that is exactly what T1 is necessary for).")
 ASSUME["C07"] = ["a failed CAS means another thread made progress (lock-freedom argument)", "the list is finite and acyclic (C10, DESIGN A.2)",
                  "wait-on-marker cycles are justified only if every marker completes or undoes its mark (T1)"]
